@@ -64,6 +64,7 @@ impl Adapter for CoalesceAd {
         p.max_adv = 1;
         p.spurious_pct = 5;
         p.hold = rng.pct(50);
+        p.callpanic_pct = 6;
         p
     }
     fn finale(&self, _cfg: &Value) -> Vec<Value> {
